@@ -392,11 +392,12 @@ class Array:
         self._datadir._write_jsondict(filename=self._arraydescrfilename,
                                       d=arrayinfo, overwrite=True)
 
-    def _sync_arrayinfo(self):
+    def _sync_arrayinfo(self, check=True):
         # The array on disk may have been changed through another Array
         # object or by path (e.g. truncate_array, overwrite) since this
         # object cached its shape and dtype.
-        self._check_arrayinfoconsistency()
+        if check:
+            self._check_arrayinfoconsistency()
         d = self._arrayinfo
         self._dtype = np.dtype(arrayinfotodtype(d))
         self._shape = tuple(d['shape'])
@@ -413,6 +414,7 @@ class Array:
         self._update_readmetxt()
 
     def _update_readmetxt(self):
+        self._sync_arrayinfo(check=False)
         txt = readcodetxt(self)
         self._datadir._write_txt(self._readmefilename, txt, overwrite=True)
 
